@@ -114,7 +114,8 @@ class Site(object):
             d = dict(d, **(kind if isinstance(kind, dict) else {'kind': kind}))
             kind = d['kind']
         if kind == 'page':
-            parts = ['<html><head>']
+            # ('bare': the <html> start tag is optional in HTML5, and prose may hold words like "various" or "function")
+            parts = ['<!DOCTYPE html><head>' if d.get('bare') else '<html><head>']
             late = d.get('nofollow_late')
             if late:
                 # the followable links come first, as <link rel="next">, and only then the declaration
@@ -126,6 +127,8 @@ class Site(object):
             if d.get('nofollow'):
                 parts.append('<meta name="robots" content="nofollow">')
             parts.append('<title>t</title></head><body>')
+            if d.get('bare'):
+                parts.append('<p>various functions of the variable settimeout.</p>')
             for l in d.get('links', []):
                 href = l.get('spelling') or self.url_text(l['to'])
                 if (late and not l.get('inline')) or l.get('implicit'):
@@ -138,7 +141,7 @@ class Site(object):
                     parts.append('<img src="%s">' % href)
                 else:
                     parts.append('<a href="%s">x</a>' % href)
-            parts.append('</body></html>')
+            parts.append('</body>' if d.get('bare') else '</body></html>')
             return 'page', _http(200, 'OK', ''.join(parts).encode(), 'text/html')
         if kind == 'sitemap':
             locs = ''.join('<url><loc>%s</loc></url>' % (l.get('spelling') or self.url_text(l['to'])) for l in d.get('links', []))
